@@ -127,6 +127,34 @@ theorem getAll_wire (st : St) (h0 : HMap) (k : Bytes) :
           simp [hm, hd, HMap.getAll_insert_ne _ _ _ _ k1, HMap.getAll_insert_ne _ _ _ _ k2,
             HMap.getAll_insert_ne _ _ _ _ k3, hext]
 
+/-! ### reading -/
+
+/-- the three status headers removed — what `from_header_map` keeps as metadata -/
+def stripStatus (h : HMap) : HMap :=
+  HMap.remove GRPC_STATUS_DETAILS (HMap.remove GRPC_MESSAGE (HMap.remove GRPC_STATUS h))
+
+theorem getAll_stripStatus (k : Bytes) (h : HMap) :
+    HMap.getAll k (stripStatus h) =
+      if k = GRPC_STATUS ∨ k = GRPC_MESSAGE ∨ k = GRPC_STATUS_DETAILS then [] else HMap.getAll k h := by
+  unfold stripStatus
+  by_cases k3 : k = GRPC_STATUS_DETAILS
+  · subst k3; simp [HMap.getAll_remove_self]
+  · rw [HMap.getAll_remove_ne _ _ _ k3]
+    by_cases k2 : k = GRPC_MESSAGE
+    · subst k2; simp [HMap.getAll_remove_self]
+    · rw [HMap.getAll_remove_ne _ _ _ k2]
+      by_cases k1 : k = GRPC_STATUS
+      · subst k1; simp [HMap.getAll_remove_self]
+      · rw [HMap.getAll_remove_ne _ _ _ k1]; simp [k1, k2, k3]
+
+/-- whenever there is a `grpc-status` header the repaired reader returns a status whose metadata
+is the block minus the three status headers -/
+theorem fromHeaderMap_fixed_status (h : HMap) (cv : Bytes) (hget : HMap.get GRPC_STATUS h = some cv) :
+    ∃ st', fromHeaderMap .fixed h = some (.status st') ∧ st'.metadata = stripStatus h := by
+  unfold fromHeaderMap stripStatus
+  simp only [hget]
+  split <;> (refine ⟨_, rfl, ?_⟩; rfl)
+
 /-! ### code strings -/
 
 theorem codeOfString_none (bs : Bytes) (h : ∀ n : Fin 17, decimal n.val ≠ bs) :
